@@ -293,7 +293,17 @@ def _c18_worker(case):
         else:
             rules = case["rules"]
             sd = make_sd(rules); nm = var_names(sd); n = len(nm)
-            srcs = [v for v in nm if any(l.replace(" ", "") == f"{v},{v}" for l in rules.splitlines())]
+            def _is_identity(line, v):
+                lhs, rhs = line.split(",", 1)
+                rhs = rhs.replace(" ", "")
+                while rhs.startswith("(") and rhs.endswith(")"):
+                    rhs = rhs[1:-1]
+                return lhs.strip() == v and rhs == v
+            srcs = [v for v in nm if any(_is_identity(l, v) for l in rules.splitlines())]
+            # every variable whose update function is the identity is an input of the library (semantic test on the truth tables)
+            tabs0 = tables_of(sd)
+            sem = [v for i, v in enumerate(nm) if all((tabs0[i][k] == "1") == bool((k >> (n - 1 - i)) & 1) for k in range(2 ** n))]
+            srcs = sem
             if not srcs:
                 return {"case": case, "msgs": [], "trivial": True, "error": None}
             val = {v: rng.randint(0, 1) for v in srcs}
